@@ -318,8 +318,46 @@ class CacheList(ModelObj):
             raise PyRaise(BuiltinExc("ValueError", ("list.remove(x): x not in list",)))
         self._bump(I, n, -1)
 
+    def _order(self, I):
+        """the list as a sequence: an enumeration of the bag (valid when no node occurs twice)"""
+        c, i, ctx = self.c, self.i, I.ctx
+        seq = ctx.fresh_fun(c.name + "_seq", Int, Int)
+        pos = ctx.fresh_fun(c.name + "_pos", Int, Int)
+        j, n = z3.Ints("j!o n!o")
+        nodup = forall([n], c.cnt(i, n) <= 1)
+        ctx.assume(IMP(nodup, forall([j], IMP(AND(j >= 0, j < c.ln(i)), AND(c.cnt(i, seq(j)) > 0, pos(seq(j)) == j)))), "cache.order")
+        ctx.assume(IMP(nodup, forall([n], IMP(c.cnt(i, n) > 0, AND(pos(n) >= 0, pos(n) < c.ln(i), seq(pos(n)) == n)))), "cache.order")
+        return seq
+
     def do_sort(self, I, key=None):
-        pass  # order is not part of the abstract view (bag)
+        """in-place sort: the bag is unchanged; the order becomes ascending in key (stable order unspecified)"""
+        c, i, ctx = self.c, self.i, I.ctx
+        seq = self._order(I)
+        if key is not None:
+            kq = ctx.fresh("kq", Int)
+            nb = len(I.pure_guards)
+            I.pure += 1
+            try:
+                kt = I.call(key, [Sym(kq)], {})
+            finally:
+                I.pure -= 1
+            guards = I.pure_guards[nb:]
+            del I.pure_guards[nb:]
+            kterm = to_z3(kt, Int)
+            keyf = lambda x: z3.substitute(kterm, (kq, x))
+            if guards:
+                ctx.oblige(f"{I.frames[-1].qualname}/sort-key-does-not-raise",
+                           IMP(c.cnt(i, kq) > 0, AND(*guards)), kind="safety", props=getattr(I, "safety_props", ()))
+            j, k = z3.Ints("j!s k!s")
+            ctx.assume(forall([j, k], IMP(AND(j >= 0, j < k, k < c.ln(i)), keyf(seq(j)) <= keyf(seq(k)))), "cache.sorted")
+        c.order = getattr(c, "order", {})
+        c.order[str(i)] = (seq, c.cnt)
 
     def m_iter(self, I):
-        raise Unsupported("iteration over a cache list (use the query contracts)")
+        c, i = self.c, self.i
+        od = getattr(c, "order", {}).get(str(i))
+        if od is not None and od[1] is c.cnt:
+            seq = od[0]
+        else:
+            seq = self._order(I)  # an arbitrary order
+        return SymList(c.ln(i), lambda j: Sym(seq(j)), elem_sort=Int)
